@@ -8,7 +8,8 @@ R1 writers   every write to the state outside the three layout primitives is fol
              update_variable_num_dofs only overwrites one size slot addressed through the number map.
 R2 order     _cluster_dofs_gridwise: subdomains then interfaces (outermost), variables in creation
              order (inner), old size fetched through the old number of the same id, new number ==
-             position of the appended size, both attributes replaced from the lock-step pair.
+             position of the appended size, both attributes replaced from the lock-step pair; SubSystem copies
+             variables in the parent's creation order.
 R3 readers   dofs_of / identify_dof / projection_to / get_variable_values / set_variable_values /
              num_dofs derive offsets only from (0, cumsum(_variable_num_dofs)) indexed through
              _variable_numbers, or from iteration over _variable_numbers (block order).
@@ -49,7 +50,8 @@ META = {
         "mdg.interfaces() as outermost loops, _variables (creation order) inside, filters on variable.domain == "
         "grid, reads the OLD size through the OLD number of the same id, gives the block the number equal to the "
         "position of the size just appended (counter initialised 0, incremented once per block after use, never "
-        "reset), and finally replaces both attributes by the lock-step pair. (R3) readers: offsets are "
+        "reset), and finally replaces both attributes by the lock-step pair; SubSystem hands variables to the new system "
+        "while iterating this system's variables (creation order is inherited). (R3) readers: offsets are "
         "hstack((0, cumsum(_variable_num_dofs))) indexed [n], [n+1] with n = _variable_numbers[var.id]; identify_dof "
         "is argmax(offsets > dof) - 1; projection_to sorts the column indices and builds (arange, indices) with "
         "shape (n, num_dofs); get/set_variable_values iterate _variable_numbers (whose insertion order R2 makes the "
@@ -67,7 +69,7 @@ META = {
                     "Variable.id is unique per variable"],
     "technique": "CFG post-dominance/dominance for writer discipline + shape/dataflow matching of the renumbering loop and of each reader's offset derivation",
 }
-MIN_INSTANCES = {"R1": 16, "R2": 9, "R3": 20, "R4": 14}
+MIN_INSTANCES = {"R1": 16, "R2": 10, "R3": 20, "R4": 14}
 
 
 # ----------------------------------------------------------------------------------------------
@@ -406,6 +408,42 @@ def _check_append_callers(ctx: Ctx, rel: str, qual: str, fn: ast.FunctionDef) ->
     return len(calls)
 
 
+def _check_inherited_order(ctx: Ctx, rel: str, meths: dict) -> None:
+    """A method that registers EXISTING variables in another EquationSystem (SubSystem) must insert them while
+    iterating this system's variables: the insertion order of _variables is the creation order that
+    _cluster_dofs_gridwise uses inside each grid."""
+    n = 0
+    for name, fn in meths.items():
+        pm = parent_map(fn)
+        for stmt, recv, attr, how in state_writes(fn):
+            if attr != "_variables" or how != "store" or recv == "self":
+                continue
+            n += 1
+            loops = []
+            cur: ast.AST = stmt
+            while cur in pm and pm[cur] is not fn:
+                cur = pm[cur]
+                if isinstance(cur, (ast.For, ast.While)):
+                    loops.append(cur)
+            if len(loops) != 1 or not isinstance(loops[0], ast.For):
+                raise Undecided(f"{CLS}.{name}: foreign _variables store is not inside a single for loop")
+            it = loops[0].iter
+            base = it.func.value if isinstance(it, ast.Call) and isinstance(it.func, ast.Attribute) and it.func.attr in ("values", "items") else it
+            if _is_self_attr(base, "variables") or _is_self_attr(base, "_variables"):
+                ok, why = True, "parent's creation order"
+            else:
+                kind, why = _order_source(fn, it)
+                ok = False
+                if kind == "block":
+                    raise Undecided(f"{CLS}.{name}: variables copied in block order ({u(it)})")
+            ctx.check("R2", ok, rel, f"{CLS}.{name}", loops[0],
+                      f"variables handed to {recv} must be inserted in this system's creation order (iterate self.variables): {why}",
+                      construct=f"{recv}._variables filled in `for ... in {u(it)}`",
+                      desc=f"{recv}._variables is filled in the parent's creation order")
+    if n == 0:
+        raise AnchorError(f"{CLS}: no method registers variables in another EquationSystem (SubSystem anchor lost)")
+
+
 # ----------------------------------------------------------------------------------------------
 # R2 _cluster_dofs_gridwise
 # ----------------------------------------------------------------------------------------------
@@ -546,6 +584,10 @@ def _check_cluster(ctx: Ctx, rel: str, fn: ast.FunctionDef) -> None:
         # guard: variable.domain == grid
         guard = _guard_of_block(pm, block, app_stmt, vloop)
         ok_guard = guard is not None and _is_domain_test(guard, vname, gname)
+        if guard is not None and not ok_guard:
+            gn = names_in(guard)
+            if vname in gn and gname in gn:  # relates the variable to the grid in a way we do not know
+                raise Undecided(f"{q}: unrecognised domain filter `{u(guard)}` in grid loop [{tag}]")
         ctx.check("R2", ok_guard, rel, q, guard if guard is not None else app_stmt,
                   f"a block is emitted for exactly the variables with {vname}.domain == {gname}",
                   construct=f"[{tag}] guard {u(guard) if guard is not None else None}")
@@ -1137,6 +1179,7 @@ def run(ctx: Ctx) -> None:
         _check_append_callers(ctx, mod.rel, f"{CLS}.{name}", fn)
     if n_writers < 2:
         raise AnchorError(f"{CLS}: expected at least create_variables and remove_variables to write the layout state")
+    _check_inherited_order(ctx, mod.rel, meths)
     _check_append_dofs(ctx, mod.rel, meths["_append_dofs"])
     _check_update_num_dofs(ctx, mod.rel, meths["update_variable_num_dofs"])
 
@@ -1233,6 +1276,9 @@ MUTANTS = [
     _m("cluster-inner-by-old-numbers", _CL1,
        "        for grid in self.mdg.subdomains():\n            for id_ in self._variable_numbers:\n"
        "                variable = self._variables[id_]\n                if variable.domain == grid:\n", "R2"),
+    _m("subsystem-variables-in-caller-order", "        for variable in self.variables:\n            if variable in variables:\n                # Update variables.\n",
+       "        for variable in variables:\n            if variable in self.variables:\n                # Update variables.\n", "R2"),
+    _m("cluster-no-domain-filter", "                if variable.domain == intf:\n                    local_dofs", "                if True:\n                    local_dofs", "R2"),
     _m("get-values-iterates-variables", "        for id_ in self._variable_numbers:\n", "        for id_ in self._variables:\n", "R3", control=True),
     _m("set-values-sorted-by-id", "        for id_, variable_number in self._variable_numbers.items():\n",
        "        for id_, variable_number in sorted(self._variable_numbers.items()):\n", "R3"),
